@@ -15,4 +15,14 @@ ExpandClause(e) ==
     [] e.shared # 0 -> "ExpandedSpecificationSharesNoRuleObjectWithTheOriginal"
     [] e.old_before # e.old_after -> "OriginalSpecificationIsLeftUnchanged"
     [] OTHER -> "ok"
+\* An "expand_one" event records  new = old.expand_comb_class(target, pack, ...)  for one verified class, named by its label
+\* or by an equal (not identical) class object (`how`): the class itself must be expanded (its rule in `new` is no longer a
+\* verification rule offering a pack); other verified classes may remain.
+ExpandOneClause(e) ==
+  CASE e.raised # "" -> "ExpandingVerifiedClassesSucceeds"
+    [] e.root_new # e.root_old -> "ExpandedSpecificationHasTheSameStartClass"
+    [] e.target_still_verified -> "TheNamedClassIsExpanded"
+    [] e.shared # 0 -> "ExpandedSpecificationSharesNoRuleObjectWithTheOriginal"
+    [] e.old_before # e.old_after -> "OriginalSpecificationIsLeftUnchanged"
+    [] OTHER -> "ok"
 =============================================================================
